@@ -232,6 +232,17 @@ def frame(ctx: Ctx, rows: dict, cases: list) -> None:
         stores = [t for st in c.il_terms for t in ilfacts.walk(st) if t.ctor == "store"]
         if r.cls in ("CMP", "CMPW", "CMPP", "TEST") and (stores or written):
             groups[("C04.4/frame-compare", c.opcode, f"compare/test writes {sorted(written)} and stores {len(stores)} times")].append(c)
+        if r.cls in ("EX", "EXW", "EXP") and len(stores) == 2:
+            # (m) <-> (n): what is stored to is exactly what was loaded from - the two cells trade contents, no third cell is touched
+            st_addrs = sorted({repr(t.args[1]) for t in stores})
+            top_loads = []
+            for st in c.il_terms:
+                if st.ctor == "set_reg" and isinstance(st.args[2], Term) and st.args[2].ctor == "load":
+                    top_loads.append(repr(st.args[2].args[1]))
+                if st.ctor == "store" and isinstance(st.args[2], Term) and st.args[2].ctor == "load":
+                    top_loads.append(repr(st.args[2].args[1]))
+            if sorted(set(top_loads)) != st_addrs:
+                groups[("C04.4/exchange-pair", c.opcode, "the two cells stored to are not the two cells loaded from")].append(c)
         if len(stores) == 1 and ops and r.cls not in COUNTED and r.cls not in ("PUSHU", "PUSHS", "IR", "CALL", "EX"):
             o = ops[0]
             addr = stores[0].args[1]
